@@ -512,8 +512,11 @@ func runPlanCase(w *out.W, id string, cfg planCfg, cs []dchange, expectReject bo
 		if c.ename != "" {
 			cfg.ownOf[c.ename], cfg.ownOf[c.ename2] = c.eschema, c.eschema
 		}
-		if (c.k == "AT" || c.k == "DT" || c.k == "MT") && c.t.schema != nil && *c.t.schema != "" {
+		if (c.k == "AT" || c.k == "DT" || c.k == "MT" || c.k == "RT") && c.t.schema != nil && *c.t.schema != "" {
 			baseSchemas[*c.t.schema] = true
+		}
+		if c.k == "RT" && c.t2.schema != nil && *c.t2.schema != "" {
+			baseSchemas[*c.t2.schema] = true
 		}
 		for _, s := range c.subs {
 			for _, col := range []dcol{s.col, s.col2} {
@@ -606,9 +609,9 @@ func runPlanCase(w *out.W, id string, cfg planCfg, cs []dchange, expectReject bo
 	}
 	w.Count("outcome:planned")
 	if expectReject && cfg.q != nil {
-		// more than one schema among the Add/Drop/ModifyTable tables, or a schema change,
+		// more than one schema among the Add/Drop/Modify/RenameTable tables, or a schema change,
 		// accepted: unexpected.  Otherwise the second schema comes from an enum column or
-		// from a change kind CheckChangesScope skips (the recorded findings).
+		// from an enum object change, which CheckChangesScope skips (the recorded findings).
 		cls := "plan-accepts-cross-schema"
 		switch {
 		case len(baseSchemas) > 1 || strings.Contains(desc, "schema"):
